@@ -198,6 +198,18 @@ claim("C07", "exploration",
       "are not canaries; resource exhaustion is out of scope; no coverage-guided byte-level campaign for this property.",
       "DESIGN.md §4 C07")
 
+claim("C16", "exploration",
+      "scenario fuzzing (Hypothesis) of real servers over real sockets: generated interleavings of well-behaved clients and "
+      "hostile clients built from a byte-level grammar (framing, compression, authentication, abrupt / half close, foreign "
+      "object ids); invariant oracle on what every good client observes and on continued accepting",
+      "Threaded, thread-pool (4 workers) and forking servers run for real on TCP loopback and unix sockets with and "
+      "without an authenticator; after every hostile client a fresh good client must connect and complete a call, and "
+      "good clients keep seeing their own service instance, state and references. Scheduling is the operating system's; "
+      "oracles state only schedule-independent facts and a liveness miss is confirmed in isolation before it counts.",
+      "Real time appears only as a 10 s liveness bound; gevent server not exercised; hold-open hostile clients are limited "
+      "to fewer than the pool size.",
+      "DESIGN.md §4 C16")
+
 NOT_YET = "check not built yet in this revision (see DESIGN.md §8 build order)"
 
 
